@@ -295,6 +295,7 @@ INDEPENDENT = {
     "fingerprints": set(),
     "gating": set(ALL_PIDS) - {"C16"},
     "layouts": set(ALL_PIDS) - {"C07", "C09"},
+    "u2fprog": set(ALL_PIDS) - {"C08", "C10"},
 }
 
 
@@ -1406,7 +1407,7 @@ def cases_c16(ctx, boost):
                 continue
             ta, tb = {"named": payload}, {"named": vrb[variant]}
 
-            def expect(impl_a, ta=ta, tb=tb):
+            def expect(impl_a, ta=ta, tb=tb, sa=sa, sb=sb):
                 w = impl_a.split(" ")
                 if w[0] != "ok" or len(w) != 3:
                     return None         # rejected in the smaller configuration: C12 / C05 territory
@@ -1438,7 +1439,7 @@ def cases_c16(ctx, boost):
                     except (ValueError, TypeError, IndexError):
                         continue
 
-                    def expect_d(impl_a, t=t, tb=tb):
+                    def expect_d(impl_a, t=t, tb=tb, sa=sa, sb=sb):
                         w = impl_a.split(" ")
                         if w[0] != "ok" or len(w) != 2:
                             return None
